@@ -121,8 +121,26 @@ def run_impl(case):
     except Exception as ex:
         return {"raised": exn_kind(ex), "results": [], "abn": [], "nba": []}
     results = []
+    lookup = [None]
+
+    def probe(when):
+        """the lookup entry points answer from the registry as it is now: getAddr/getName/countNameAddr agree with
+        the two maps after every step (for present and for absent keys)"""
+        if lookup[0]:
+            return
+        abn_, nba_ = nm.addrByName, nm.nameByAddr
+        for k in range(1, 5):
+            if nm.getAddr(_fresh(NAMES[k])) != abn_.get(NAMES[k]):
+                lookup[0] = f"{when}: getAddr({NAMES[k]!r}) = {nm.getAddr(NAMES[k])!r} but addrByName has {abn_.get(NAMES[k])!r}"
+            if nm.getName(_fresh(ADDRS[k])) != nba_.get(ADDRS[k]):
+                lookup[0] = f"{when}: getName({ADDRS[k]!r}) = {nm.getName(ADDRS[k])!r} but nameByAddr has {nba_.get(ADDRS[k])!r}"
+        if nm.countNameAddr != len(abn_) or len(abn_) != len(nba_):
+            lookup[0] = f"{when}: countNameAddr = {nm.countNameAddr}, maps hold {len(abn_)} / {len(nba_)} entries"
+    probe("after construction")
     for i, (kind, a, b) in enumerate(case["ops"]):
         # first operand is a name (add/rem/chga) or an address (chgn)
+        if i:
+            probe(f"after op {i - 1} {case['ops'][i - 1]}")
         try:
             if kind == "add":
                 r = nm.addNameAddr(name=_fresh(NAMES[a]) if a else _falsy(i), addr=_fresh(ADDRS[b]) if b else _falsy(i + 1))
@@ -137,6 +155,7 @@ def run_impl(case):
             results.append(["ok", bool(r)])
         except Exception as ex:
             results.append(["exc", exn_kind(ex)])
+    probe("after the last op")
     abn = sorted([NAMES.index(k), ADDRS.index(v)] for k, v in nm.addrByName.items())
     nba = sorted([ADDRS.index(k), NAMES.index(v)] for k, v in nm.nameByAddr.items())
     # snapshots after every op for the oracle
@@ -148,7 +167,7 @@ def run_impl(case):
     leak = None
     if (nm.addrByName, nm.nameByAddr) != (dict((NAMES[k], ADDRS[v]) for k, v in abn), dict((ADDRS[k], NAMES[v]) for k, v in nba)):
         leak = f"editing the dicts returned by .addrByName/.nameByAddr changed the registry: {nm.addrByName} / {nm.nameByAddr}"
-    return {"raised": None, "results": results, "abn": abn, "nba": nba, "leak": leak}
+    return {"raised": None, "results": results, "abn": abn, "nba": nba, "leak": leak, "lookup": lookup[0]}
 
 
 def oracle(case, obs):
@@ -166,6 +185,8 @@ def oracle(case, obs):
         return None
     if obs.get("leak"):
         return obs["leak"]
+    if obs.get("lookup"):
+        return obs["lookup"]
     abn = {k: v for k, v in obs["abn"]}
     nba = {k: v for k, v in obs["nba"]}
     if {v: k for k, v in abn.items()} != nba or len(set(abn.values())) != len(abn):
